@@ -263,8 +263,12 @@ func recordLib(args []string) error {
 		}
 	case "boundary", "large":
 		for i, n := range sz {
-			r.scenarioSized(i, n, *scen == "boundary", kinds[i%3])
-			if n > 1001 && n <= 5000 && kinds[i%3] != "big" {
+			kind := kinds[i%3]
+			if *scen == "large" {
+				kind = kinds[(i+2)%3] // the first large size is built by the big writer
+			}
+			r.scenarioSized(i, n, *scen == "boundary", kind)
+			if n > 1001 && n <= 5000 && kind != "big" {
 				// beyond the 1000-row / 1000-value batches every size is also built by the big writer
 				r.scenarioSized(i+1, n, *scen == "boundary" && n <= 2500, "big")
 			}
@@ -375,6 +379,24 @@ func (r *libRec) scenarioSmall(i int) {
 			}
 			r.exec(1, idx, vx.Query{E: e})
 		}
+		// systematic group-by widths 7..70 (a column repeated, two columns alternating): second round only
+		for w := 7; round == 1 && w <= 70; w++ {
+			c1, c2 := 1+w%ncols, 1+(w/2)%ncols
+			var gb []int
+			for j := 0; j < w; j++ {
+				if w%3 == 0 && j%2 == 1 {
+					gb = append(gb, c2)
+				} else {
+					gb = append(gb, c1)
+				}
+			}
+			l := leaves[(w*5)%len(leaves)]
+			var e *vx.Expr = &vx.Expr{Op: "eq", Col: l[0], Val: l[1]}
+			if w%2 == 0 {
+				e = &vx.Expr{Op: "not", E: e}
+			}
+			r.exec(1, idx, vx.Query{E: e, GB: gb})
+		}
 		// count(col=v) for every value of every column through a group-by on a tautology
 		for c := 1; c <= ncols; c++ {
 			if used[c] {
@@ -430,9 +452,15 @@ func (r *libRec) scenarioSized(i, n int, unique bool, kind string) {
 	}
 	if n >= 8192 {
 		// blocks of exactly 4096 rows per value (buffer / container sized runs)
-		gens = append(gens, colGen{col: 6, present: 1, gen: func(i int) int { return 1 + i/4096 }, card: 1 + n/4096})
+		// (counted over the rows that carry the column, so every value but the last is held by exactly 4096 rows)
+		carried := 0
+		gens = append(gens, colGen{col: 6, present: 1, gen: func(int) int { carried++; return 1 + (carried-1)/4096 }, card: 1 + n/4096})
 	}
-	rows := genDataset(rng, n, gens, i%2)
+	emptyTail := i % 2
+	if kind == "big" {
+		emptyTail = 1 + i%2 // the big writer always ends with rows that have no columns
+	}
+	rows := genDataset(rng, n, gens, emptyTail)
 	wr, ok := r.newWriter(1, kind)
 	if !ok {
 		return
@@ -618,7 +646,11 @@ func (r *libRec) scenarioClobber(i int) {
 			continue
 		}
 		r.addRows(p, wr, rows)
-		r.flush(p, wr)
+		if !r.flush(p, wr) {
+			// the caller tries again with the same writer: the path still exists, so nothing may change
+			r.flush(p, wr)
+			r.flush(p, wr)
+		}
 		// the model has one writer slot per path: start the next attempt from a fresh slot
 		r.out.Emit(map[string]any{"ev": "DropWriter", "p": p})
 	}
